@@ -126,6 +126,7 @@ type Enc struct {
 	retPosts map[string]*retPost
 	retOrder []string
 	retGuards []string
+	retCount map[string]int
 }
 
 type iterRec struct {
@@ -170,6 +171,7 @@ func (e *Enc) reset() {
 	e.retPosts = map[string]*retPost{}
 	e.retOrder = nil
 	e.retGuards = nil
+	e.retCount = map[string]int{}
 }
 
 func (e *Enc) fresh(hint, sort string) string {
